@@ -195,11 +195,14 @@ def run(ctx):
     ctx.extra["model"] = dict(strict=res["strict"].summary(), asbuilt=res["asbuilt"].summary())
     if thorough and res["asbuilt"].coverage_zero:
         ctx.extra["coverage_zero"] = res["asbuilt"].coverage_zero[:10]
+    # The only map crash the as-built discipline can produce is the iterator's "concurrent map iteration and map write":
+    # its predicted sites are the READ sides of the racing pairs on a map location (all map writes are locked).
     sites_on_maps = {}
     for k, e in predicted.items():
         if e["locs"] & MAPLOCS:
             for s in k:
-                sites_on_maps.setdefault(s[0], set()).add(k)
+                if s[1] == "R":
+                    sites_on_maps.setdefault(s[0], set()).add(k)
 
     def devs_of(k):
         ds = [d for d in DEVS if k in by_dev[d]]
@@ -279,7 +282,7 @@ def run(ctx):
         elif k == "fatal":
             s = site(e.get("fns", []))
             msg = e.get("msg", "")
-            cands = sites_on_maps.get(s, set()) if "concurrent map" in msg else set()
+            cands = sites_on_maps.get(s, set()) if "concurrent map iteration and map write" in msg else set()
             ds = sorted(set(d for kk in cands for d in devs_of(kk)))
             fid = next((DEVS[d] for d in ds if d in open_devs), None)
             ctx.extra["fatal_errors"] = ctx.extra.get("fatal_errors", 0) + 1
